@@ -17,7 +17,10 @@ pub use snapshot::ServerContextSnapshot;
 pub use status_bar::ProgressTask;
 pub use status_bar::StatusBar;
 use std::{collections::HashMap, future::Future, sync::Arc};
+#[cfg(not(emmyluals_emmylua_analyzer_rust_verif))]
 use tokio::sync::{Mutex, RwLock};
+#[cfg(emmyluals_emmylua_analyzer_rust_verif)]
+use crate::verif_lock::{Mutex, RwLock};
 use tokio_util::sync::CancellationToken;
 pub use workspace_manager::*;
 
